@@ -634,7 +634,7 @@ func (em *emitter) emitCompositeLiteral(expr *ast.CompositeLiteral, reg int8, ds
 			if canEmitDirectly(valueType.Kind(), field.Type.Kind()) {
 				value, k := em.emitExprK(kv.Value, valueType)
 				index := em.fb.makeFieldIndex(field.Index)
-				em.fb.emitSetField(k, structt, index, value, field.Type.Kind())
+				em.fb.emitSetField(k, structt, index, value, field.Type.Kind(), nil)
 			} else {
 				em.fb.enterStack()
 				tmp := em.emitExpr(kv.Value, valueType)
@@ -642,7 +642,7 @@ func (em *emitter) emitCompositeLiteral(expr *ast.CompositeLiteral, reg int8, ds
 				em.changeRegister(false, tmp, value, valueType, field.Type)
 				em.fb.exitStack()
 				index := em.fb.makeFieldIndex(field.Index)
-				em.fb.emitSetField(false, structt, index, value, field.Type.Kind())
+				em.fb.emitSetField(false, structt, index, value, field.Type.Kind(), nil)
 			}
 			// TODO(Gianluca): use field "k" of SetField.
 		}
@@ -795,12 +795,12 @@ func (em *emitter) emitSelector(v *ast.Selector, reg int8, dstType reflect.Type)
 	}
 	index := em.fb.makeFieldIndex(field.Index)
 	if canEmitDirectly(field.Type.Kind(), dstType.Kind()) {
-		em.fb.emitField(exprReg, index, reg, dstType.Kind())
+		em.fb.emitField(exprReg, index, reg, dstType.Kind(), v.Pos())
 		return
 	}
 	// TODO: add enter/exit stack method calls.
 	tmp := em.fb.newRegister(field.Type.Kind())
-	em.fb.emitField(exprReg, index, tmp, field.Type.Kind())
+	em.fb.emitField(exprReg, index, tmp, field.Type.Kind(), v.Pos())
 	em.changeRegister(false, tmp, reg, field.Type, dstType)
 
 }
